@@ -46,6 +46,9 @@ ASSUMPTIONS = [
     "'the registered device listener receives at most one notification over the lifetime of one device object' is counted over "
     "ALL listener objects the application registers during that lifetime (atv.listener may be assigned again, to the same object, a new "
     "one, or None, at any point)",
+    "between two close() calls the tasks handed out may complete, stay pending (closing the session takes a moment) or be cancelled "
+    "by the caller (wait_for timeout): every later close() must hand out the same task objects, plus only tasks created by protocols "
+    "that are closed late — a new task replacing one already handed out violates 'returns the same pending tasks'",
     "'returns the same pending tasks' is judged on the contents of the returned set at every close(), with the event loop "
     "given the chance to complete the tasks in between, and the set must be awaitable by iterating it",
     "a protocol's own push updater may raise from start() (push_updater.start() then fails half-way); a protocol updater raising "
@@ -85,10 +88,13 @@ def split_beh(tok):
 # ------------------------------------------------------------------------------ fakes
 
 class _Session:
-    def __init__(self):
+    def __init__(self, env=None):
         self.closed = 0
+        self.env = env
 
     async def close(self):
+        if self.env is not None and self.env.hold:
+            await self.env.task_gate.wait()     # closing the session takes a moment
         self.closed += 1
 
 
@@ -181,7 +187,10 @@ class Env:
         env = self
         self.shared = shared
         self.loop = asyncio.get_event_loop()
-        self.session = _Session()
+        self.session = _Session(self)
+        self.hold = False              # the tasks close() hands out stay pending until the history is over
+        self.task_gate = asyncio.Event()
+        self.proto_tasks = set()       # every task a protocol's close() has returned
         self.dispatcher = CoreStateDispatcher()
         self.atv = FacadeAppleTV(shared["config"], self.session, self.dispatcher, shared["settings"])
         self.reports = []          # (i, kind, exc) in emission order
@@ -231,7 +240,9 @@ class Env:
                     env.close_log.append(i)
                     for kd in kinds:
                         env.report(i, kd)
-                    return {asyncio.ensure_future(_noop()) for _ in range(tasks)}
+                    made = {asyncio.ensure_future(env.task_body()) for _ in range(tasks)}
+                    env.proto_tasks |= made
+                    return made
 
                 return connect, close
 
@@ -341,6 +352,11 @@ class Env:
                 self.listener_obj = None
                 if probe() is not None:      # CPython frees it by reference count; be safe elsewhere
                     gc.collect()
+
+    async def task_body(self):
+        if self.hold:
+            await self.task_gate.wait()
+        return None
 
     # -- what the user still holds -------------------------------------------------------
     def snapshot(self):
@@ -503,7 +519,7 @@ class Env:
             return "-"
         if tok == "u":
             out = self.do_close(top=True)
-            if out.startswith("set") and not self.iter_checked:
+            if out.startswith("set") and not self.iter_checked and not self.hold:
                 # what an application does with the result: await the tasks, iterating the set
                 self.iter_checked = True
                 try:
@@ -512,13 +528,25 @@ class Env:
                 except RuntimeError as ex:
                     self.problems.append(("close-tasks:set-changed-while-awaiting",
                                           "awaiting the tasks while iterating the set close() returned failed: %s" % ex))
-                except Exception:
-                    pass
+                except (Exception, asyncio.CancelledError):
+                    pass        # (a task the caller had cancelled earlier)
             await asyncio.sleep(0)      # let whatever close() scheduled run before the next step
             await asyncio.sleep(0)
             return out
         if tok == "c":
             await self.connect_next()
+            return "-"
+        if tok == "K":
+            # the caller gives up waiting: `wait_for(gather(*atv.close()), timeout)` timed out, or the
+            # application shuts down — every task handed out so far is cancelled
+            for ret in list(self.returned):
+                try:
+                    for task in list(ret):
+                        task.cancel()
+                except Exception:
+                    pass
+            await asyncio.sleep(0)
+            await asyncio.sleep(0)
             return "-"
         if tok == "sF":
             # push_updater.start() during which the updater of the protocol registered last raises
@@ -613,6 +641,7 @@ async def run_case(shared, case):
     lmode, protos, reporters, events = case["listener"], case["protos"], case["reporters"], case["events"]
     env = Env(shared, lmode, [(t, list(k)) for t, k in protos], reporters)
     env.loop.set_exception_handler(lambda loop, context: env.loop_errors.append(type(context.get("exception")).__name__))
+    env.hold = bool(case.get("hold"))
     await env.setup(case.get("connected0"))
     outs, problems = [], env.problems
     api_classes = []
@@ -692,10 +721,18 @@ async def run_case(shared, case):
     # between.  The set may have GROWN: a protocol that finished connecting after the device was
     # closed is closed by the next close() and its tasks join the same set.  (Whether it is the
     # same set object is compared with the model, not demanded here.)
+    # The tasks handed out earlier may meanwhile have completed, been cancelled by the caller, or
+    # still be pending: close() must keep handing out the same ones.  Anything NEW in a later
+    # result must be a task some protocol's close() returned (a protocol closed late), never a
+    # replacement for something already handed out.
     snaps = [c for c in env.snapshots if c is not None]
     if any(not (a <= b) for a, b in zip(snaps, snaps[1:])):
         problems.append(("close-again:different-tasks", "a repeated close() no longer returned pending tasks that an earlier "
-                         "close() had returned (after they completed): sizes %s" % [len(c) for c in snaps]))
+                         "close() had returned (they had meanwhile completed, been cancelled or were still pending): sizes %s"
+                         % [len(c) for c in snaps]))
+    elif any(not ((b - a) <= env.proto_tasks) for a, b in zip(snaps, snaps[1:])):
+        problems.append(("close-again:new-task", "a repeated close() returned a task that neither an earlier close() had "
+                         "returned nor a protocol closed late had created: sizes %s" % [len(c) for c in snaps]))
     if len(set(env.close_log)) != len(env.close_log):
         problems.append(("close-again:protocol-reclosed", "a protocol was closed more than once: close log %s" % env.close_log))
     # notifications
@@ -718,6 +755,7 @@ async def run_case(shared, case):
         "loop_errors": list(env.loop_errors),
     }
     # let the tasks created by close() finish
+    env.task_gate.set()
     if pend:
         try:
             await asyncio.gather(*list(pend), return_exceptions=True)
@@ -827,6 +865,22 @@ def exhaustive_cases(shared, ctx):
         (2, 2, L4c, ["r0c", "r1l2", "u", "sF", "s", "t"], [(1, ()), (0, ("c",))], "a", False),
         (2, 1, L3c, ["r0l1", "u", "sF", "c", "t"], [(1, ()), (1, ())], "a", False),
     ]
+    # what becomes of the tasks close() hands out: they stay pending (hold) and the caller cancels them (`K`)
+    kplans = [
+        (1, 1, ctx.scale(5, 6), ["r0c", "u", "K", held], [(1, ())], "a"),
+        (2, 1, ctx.scale(4, 5), ["r0l1", "u", "K", "c", top], [(1, ("c",)), (2, ("l0",))], "a"),
+        (2, 2, ctx.scale(4, 5), ["r1c", "u", "K"], [(0, ()), (1, ("c",))], "n"),
+    ]
+    for n, c0, maxlen, syms, protos, lmode in kplans:
+        pcfg = [[t, list(kinds)] for t, kinds in protos]
+        for hold in (True, False):
+            for length in range(0, maxlen + 1):
+                for seq in itertools.product(syms, repeat=length):
+                    count += 1
+                    tail = ["c"] * max(0, n - c0 - sum(1 for e in seq if e == "c")) + ["u", "K", "u"]
+                    yield {"listener": lmode, "protos": pcfg, "reporters": DEFAULT_REPORTERS[:n], "connected0": c0,
+                           "hold": hold, "events": list(seq) + tail, "probe": False,
+                           "sweep": count % 3 == 0, "drop": count % 6 == 0}
     for n, c0, maxlen, syms, protos, lmode, started in cplans:
         pcfg = [[t, list(kinds)] for t, kinds in protos]
         for length in range(0, maxlen + 1):
@@ -899,6 +953,10 @@ def random_cases(shared, ctx, count):
             case["connected0"] = c0
         if rng.random() < 0.2:
             events.insert(rng.randint(0, len(events)), "sF")
+        if rng.random() < 0.4:
+            case["hold"] = rng.random() < 0.7
+            for _k in range(rng.randint(1, 2)):
+                events.insert(rng.randint(0, len(events)), "K")
         yield case
 
 
@@ -987,7 +1045,7 @@ def _run_cases(shared, cases):
         for case in cases:
             try:
                 obs = loop.run_until_complete(run_case(shared, case))
-            except Exception as ex:  # the harness must survive changed code
+            except (Exception, asyncio.CancelledError) as ex:  # the harness must survive changed code
                 obs = {"outs": ["harness-exception:" + type(ex).__name__ + ":" + str(ex)[:80]], "N": [], "C": -1, "K": [], "P": "?",
                        "B": None, "B2": None, "collected": None, "R": 1, "I": [], "escaped": [], "premise": False, "problems": [],
                        "api_classes": [], "session_closed": 0, "loop_errors": []}
@@ -1066,7 +1124,7 @@ def _evaluate(ctx, shared, cases, judge=True):
         ctx.note("len:%d" % len(core))
         for e in core:
             ctx.note("ev:" + ("report" if e[0] == "r" else "close" if e == "u" else "api" if e[0] == "a" else
-                              "connect-next" if e == "c" else "push-start-fault" if e == "sF" else
+                              "connect-next" if e == "c" else "tasks-cancelled" if e == "K" else "push-start-fault" if e == "sF" else
                               "set-listener" if e[0] == "L" else "set-push-listener" if e[0] == "M" else "push"))
             if e[0] in "rp":
                 ctx.note("handler:" + ("raises+reenters" if ("!" in e and "~" in e) else "raises" if "!" in e else "reenters" if "~" in e else "returns"))
@@ -1086,7 +1144,7 @@ def _evaluate(ctx, shared, cases, judge=True):
             ctx.note("open-api-result:" + c)
         impl, model = canon_impl(obs), canon_model(ans, obs)
         if impl != model:
-            ctx.disagree({k: case[k] for k in ("listener", "protos", "reporters", "events", "drop", "connected0") if k in case}, impl, model, where="facade life cycle")
+            ctx.disagree({k: case[k] for k in ("listener", "protos", "reporters", "events", "drop", "connected0", "hold") if k in case}, impl, model, where="facade life cycle")
         ctx.validated()
         if case["listener"] == "d":
             ctx.note("observation:gc-listener-runs")
@@ -1095,7 +1153,7 @@ def _evaluate(ctx, shared, cases, judge=True):
             continue
         if judge:
             for sig, what in obs["problems"]:
-                ctx.fail(sig, {k: case[k] for k in ("listener", "protos", "reporters", "events", "drop", "connected0") if k in case},
+                ctx.fail(sig, {k: case[k] for k in ("listener", "protos", "reporters", "events", "drop", "connected0", "hold") if k in case},
                          {"outs": obs["outs"], "notified": obs["N"], "close_log": obs["K"], "pending": obs["P"], "inside_callbacks": obs["I"]},
                          "property C09 (blocked after close/loss — inside the notification callback too and whether or not it "
                          "raises —, close() idempotent, pushes stop, at most one notification: the first)", what)
@@ -1166,6 +1224,14 @@ def fixed_cases(shared):
         # close(); the returned tasks complete; close() again
         fixed.append({"listener": lmode, "protos": [[2, []], [1, ["c"]]], "reporters": DEFAULT_REPORTERS[:2],
                       "events": ["u", "p0", "u", "r0c", "u"], "probe": False})
+    for lmode in "an":
+        for hold in (True, False):
+            # close (or loss, then close); the caller cancels the tasks / they stay pending; close again
+            for first in (["u"], ["r0l1", "u"], ["r1c"]):
+                fixed.append({"listener": lmode, "protos": [[1, []], [2, ["c"]]], "reporters": DEFAULT_REPORTERS[:2], "hold": hold,
+                              "events": first + ["K", "u", "u", "K", "u"], "probe": False})
+            fixed.append({"listener": lmode, "protos": [[1, []], [2, ["c"]]], "reporters": DEFAULT_REPORTERS[:2], "hold": hold,
+                          "connected0": 1, "events": ["u", "K", "c", "u", "K", "u"], "probe": False})
     # every shape again with the device object dropped at the end (interface references retained)
     return fixed + [dict(c, drop=True) for c in fixed]
 
